@@ -114,6 +114,7 @@ def run_world(world, tier="quick", timeout=120.0):
         "quiescent": sum(r["sched"]["quiescent"] for r in results),
         "lib_calls": p0["lib_calls"], "flt_calls": p0["flt_calls"],
         "cells": p0.get("cells", []),
+        "raised_in_dispatch": p0.get("raised_in_dispatch", []),
         "iso": len(iso_res),
     }
     stats["nontrivial"] = bool(stats["switches_inop"] or sum(st["faults_fired"].values()) or st["mut_ops"])
